@@ -285,6 +285,7 @@ def run_B(obl, exclude_known=False):
     # obligations first; reach queries until one per label is sat
     order = [q for q in qs if q.kind != 'reach'] + [q for q in qs if q.kind == 'reach']
     nq = 0
+    n_refined = 0
     reach_ok_early = set()
 
     def discharge(q, txt, logic):
@@ -313,6 +314,8 @@ def run_B(obl, exclude_known=False):
             nq += 1
             solver_time += pr['time']
             stats[pr['status']] += 1
+            if os.environ.get('VERIF_QLOG'):
+                sys.stderr.write('[q %d/%d] %s %s %.1fs %s\n' % (nq, len(futs), q.kind, pr['status'], pr['time'], '; '.join(q.labels)[:100]))
             if pr['solver']:
                 winners[pr['solver']] = winners.get(pr['solver'], 0) + 1
             if q.kind == 'reach':
@@ -342,12 +345,32 @@ def run_B(obl, exclude_known=False):
                         stats['sat'] -= 1
                         stats['unsat'] += 1
                         continue
+                refined = None
+                if q.kind == 'obligation' and obl.mode == 'real' and q.libm and obl.opts.get('refine_libm', True) and n_refined < 4:
+                    # uninterpreted libm: a model may use impossible function values; replay here and refine with true function points
+                    binp = harness_paths(obl.hkey)['bin']
+
+                    def _replay(v, _tag='ref_%s_%d' % (re.sub(r'\W', '_', obl.id), nq)):
+                        tr_, _e, _rp = run_native(binp, obl.entry, v, _tag)
+                        return trace_failed(tr_)
+                    if vals is None or not _replay(vals):
+                        n_refined += 1
+                        v2 = smt.refine_libm(q, _replay, timeout_ms=int(obl.opts.get('refine_ms', 20000)))
+                        if v2 is not None:
+                            vals = v2
+                            refined = True
                 cex.append({'kind': q.kind if q.kind != 'memory' else 'safety', 'description': '; '.join(q.labels)[:300],
-                            'inputs': vals, 'solver': pr['solver'], 'path': q.path})
+                            'inputs': vals, 'solver': pr['solver'], 'path': q.path, 'refined_libm': refined})
             elif pr['status'] == 'unknown':
                 unknown.append('; '.join(q.labels)[:200] + ' ' + json.dumps(pr['answers']))
     res['queries'] = nq
     res['query_stats'] = stats
+    if unknown:
+        cnt = {}
+        for u in unknown:
+            k = u.split(' {')[0][:120]
+            cnt[k] = cnt.get(k, 0) + 1
+        res['unknown_labels'] = cnt
     res['solver_time_s'] = round(solver_time, 2)
     res['solver_wins'] = winners
     if r.errors:
